@@ -102,7 +102,7 @@ func listAgrees(sp *url.SearchParams, model listModel, extraNames []string) stri
 		}
 	}
 	sort.Strings(names)
-	if msg := compareThroughGetters(sp, model, names); msg != "" {
+	if msg := compareThroughGetters(sp, model, names, nil); msg != "" {
 		return msg
 	}
 	if got, want := sp.String(), twinString(model); got != want {
